@@ -37,7 +37,7 @@ def build(rnd, J_list=None, nres=None):
         i, j, k = ampkit.PAIRS[pr]
         J = J_list[n] if J_list else rnd.randrange(0, 5)
         lo, hi = mf[i] + mf[j], M0 - mf[k]
-        res[pr] = {"pair": pr, "J": J, "P": (1 if J % 2 == 0 else -1), "mass": rnd.uniform(lo + 0.05, hi + 0.1), "width": rnd.uniform(0.03, 0.3)}
+        res[pr] = {"pair": pr, "J": J, "P": (1 if J % 2 == 0 else -1), "mass": rnd.uniform(lo + 0.05, hi - 0.05), "width": rnd.uniform(0.03, 0.3)}
     return M0, mf, res
 
 
@@ -179,7 +179,7 @@ def search(ctx, fails):
 
 def run(ctx):
     rnd = random.Random(ctx.seed * 1000003 + 4)
-    ctx.rule = ("random final/parent masses, 1-3 interfering resonances on distinct pairings with J in 0..4, random masses/widths/polar couplings; events from the "
+    ctx.rule = ("random final/parent masses, nominal resonance masses inside the kinematic range (q0 real), 1-3 interfering resonances on distinct pairings with J in 0..4, random masses/widths/polar couplings; events from the "
                 "library's phase-space generator; per (config, chain, event) three certified layers K/A/D; distinct = distinct (config,chain,event); quick 6 configs x 3 events incl. "
                 "every J once, thorough 40 configs x 5 events")
     common.theorem_stage(ctx)
